@@ -2,7 +2,7 @@
 (* Executable entry point of the C16 correspondence: decodes a case (integers | doubles), runs the generic
    kernels of Geom/Kernels.v and Geom/Quadrature.v over the given Ops instance.  Besides the result, most
    operations return the absolute magnitudes of the terms of the last reduction (the rounding-class scale). *)
-From OM Require Import Base.Ops Base.Vec3 Gen.GenQuadTables Geom.Kernels Geom.Quadrature.
+From OM Require Import Base.Ops Base.Vec3 Gen.GenQuadTables Geom.Kernels Geom.Quadrature Geom.IntegratorCtors.
 From Coq Require Import ZArith QArith List.
 Import ListNotations.
 
@@ -130,14 +130,25 @@ Section Run.
           (fun '(x, v, ab) =>
              let fan := map (fun '((a, b), r) =>
                                (* the triangle is stored as the rotation r of (V,A,B): r = position of V *)
+                               (* codes 3..5: rotation r-3, then Triangle::change_orientation() AFTER the last Mesh::update():
+                                  T.edge(V) of the flipped triangle is (B,A), T.area() is still that of the old vertex order *)
+                               let flipped := Z.leb 3 r in
+                               let r := if flipped then (r - 3)%Z else r in
                                let '(s0, s1, s2) := match r with 0%Z => (v, a, b) | 1%Z => (b, v, a) | _ => (a, b, v) end in
-                               (a, b, triangle_area o s0 s1 s2)) (combine ab rots) in
+                               if flipped then (b, a, triangle_area o s0 s1 s2) else (a, b, triangle_area o s0 s1 s2)) (combine ab rots) in
              let r := operatorFerguson o x v fan in
              let s := fold_left (fun acc t => let '(a, b, ar) := t in vadd o acc (vabs (ferguson_term o x v a b ar))) fan (vconst (f0 o)) in
              ok (outV r ++ outV s))
     | 9%Z :: ord :: depth :: kind :: rest =>
       fin ((fdo tol <- getF; fdo t0 <- getV; fdo t1 <- getV; fdo t2 <- getV; fdo g <- get_integrand kind rest; fret (tol, t0, t1, t2, g)) fs)
           (fun '(tol, t0, t1, t2, g) => ok (run_integrate (Z.to_nat ord) (Z.to_nat depth) tol t0 t1 t2 g))
+    | 13%Z :: ctor :: ord :: depth :: kind :: [] =>   (* every constructor overload of Integrator *)
+      fin ((fdo tol <- getF; fdo t0 <- getV; fdo t1 <- getV; fdo t2 <- getV; fdo r0 <- getV; fdo q <- getV; fret (tol, t0, t1, t2, r0, q)) fs)
+          (fun '(tol, t0, t1, t2, r0, q) =>
+             let '(d, tl) := integrator_params o ctor (Z.to_nat depth) tol in
+             let g := match kind with 1%Z => I_dippot r0 q | _ => I_dpd r0 q end in
+             let res := run_integrate (Z.to_nat ord) d tl t0 t1 t2 g in
+             ([0%Z; Z.of_nat (safe_order (Z.to_nat ord)); Z.of_nat d], tl :: res))
     | 10%Z :: ord :: [] =>          (* the table itself, as doubles: nbPts then l0 l1 l2 w per node *)
       let rule := rule_of_order (Z.to_nat ord) in
       ([0%Z; Z.of_nat (length rule)],
